@@ -25,20 +25,20 @@ type vfNamedFile struct {
 }
 
 type vfCleanScenario struct {
-	Files  []vfNamedFile     `json:"files,omitempty"`  // pre-existing multi-entry files
-	SFiles map[string]string `json:"sfiles,omitempty"` // pre-existing standalone files
-	Other  map[string]string `json:"other,omitempty"`  // other pre-existing files (any name)
-	Dirs   []string          `json:"dirs,omitempty"`   // pre-existing sub-directories (each gets one file inside)
-	Tests  []vfTestExec      `json:"tests"`
-	Skips  []string          `json:"skips,omitempty"` // tests that call snaps.Skip first and make no call
-	Count  int               `json:"count"`
-	CI     bool              `json:"ci,omitempty"`
-	Sort   bool              `json:"sort,omitempty"`
-	Run    string            `json:"run,omitempty"`
-	Env    string            `json:"env"`
-	Clean2 bool              `json:"clean2,omitempty"` // run Clean a second time (idempotence)
-	DirName string           `json:"dirname,omitempty"` // name of the snapshot directory ("" = snaps)
-	DirSpell string          `json:"dirspell,omitempty"` // how the absolute Dir option is spelled: "" | slash | dot | dotdot | double
+	Files    []vfNamedFile     `json:"files,omitempty"`  // pre-existing multi-entry files
+	SFiles   map[string]string `json:"sfiles,omitempty"` // pre-existing standalone files
+	Other    map[string]string `json:"other,omitempty"`  // other pre-existing files (any name)
+	Dirs     []string          `json:"dirs,omitempty"`   // pre-existing sub-directories (each gets one file inside)
+	Tests    []vfTestExec      `json:"tests"`
+	Skips    []string          `json:"skips,omitempty"` // tests that call snaps.Skip first and make no call
+	Count    int               `json:"count"`
+	CI       bool              `json:"ci,omitempty"`
+	Sort     bool              `json:"sort,omitempty"`
+	Run      string            `json:"run,omitempty"`
+	Env      string            `json:"env"`
+	Clean2   bool              `json:"clean2,omitempty"`   // run Clean a second time (idempotence)
+	DirName  string            `json:"dirname,omitempty"`  // name of the snapshot directory ("" = snaps)
+	DirSpell string            `json:"dirspell,omitempty"` // how the absolute Dir option is spelled: "" | slash | dot | dotdot | double
 }
 
 type vfCleanObs struct {
